@@ -217,3 +217,23 @@ class ParentMap:
         while n is not None and not isinstance(n, ast.stmt):
             n = self.of(n)
         return n
+
+
+def fail_closed(stmts: list[ast.stmt]) -> bool:
+    """control cannot fall off the end without raising: the last statement raises unconditionally, or it is an
+    if/elif chain whose arms all terminate (return/raise) and whose final else raises."""
+    if not stmts:
+        return False
+    if ends_in_raise(stmts):
+        return True
+    last = stmts[-1]
+    if isinstance(last, ast.If):
+        node = last
+        while True:
+            if not terminates(node.body):
+                return False
+            if len(node.orelse) == 1 and isinstance(node.orelse[0], ast.If):
+                node = node.orelse[0]
+                continue
+            return fail_closed(node.orelse)
+    return False
